@@ -136,7 +136,7 @@ def gen_registry(rng, max_classes=8, focus=None, salt=0):
         ar = rng.choice([1, 1, 2, 2, 3])
         nparams = ar + rng.choice([0, 0, 1, 2])
         positions = sorted(rng.sample(range(nparams), ar))
-        kinds = [rng.choice(VK) for _ in range(ar)]
+        kinds = [rng.choice(VK + (["vp", "cvp", "vpc", "vp", "cvp"] if focus == "C09" else [])) for _ in range(ar)]
         vp = [rng.randrange(n) if rng.random() < 0.5 else 0 for _ in range(ar)]
         # roots more often
         for i in range(ar):
@@ -549,7 +549,7 @@ def emit(r, rng, name, policy, reg_style, flavours, leave_out=None):
                             pre.append("        virtual_shared_ptr<%s%s> w_%d(so%d); virtual_shared_ptr<const %s%s> v_%d(w_%d);" % (cname(c), pa, vi, c, B, pa, vi, vi))
                         args.append("v_%d" % vi)
                     elif k in ("vp", "cvp"):
-                        how = rng.choice(["base-ref", "exact", "copy", "conv", "final_virtual_ptr"] + ["final"] * (3 if getattr(r, "focus", None) == "C09" else 1) + ([] if pol else ["deduction-guide"]))
+                        how = rng.choice(["base-ref", "exact", "copy", "conv", "final_virtual_ptr"] + ["final"] * (6 if getattr(r, "focus", None) == "C09" else 1) + ([] if pol else ["deduction-guide"]))
                         if how == "final_virtual_ptr":
                             pre.append("        auto f_%d = final_virtual_ptr%s(o%d); virtual_ptr<%s%s> v_%d(f_%d);" % (vi, ("<%s>" % pol) if pol else "", c, B, pa, vi, vi))
                         elif how == "deduction-guide":
@@ -869,7 +869,7 @@ def nonpublic_base_program(name, seed, flavours):
 def programs(tier, seed, focus=None):
     rng = random.Random(seed * 31 + 7)
     out = []
-    n = 10 if tier == "quick" else 90
+    n = (14 if focus == "C09" else 10) if tier == "quick" else 90
     styles = ["one", "split", "direct", "mixed", "macros"]
     pols = ["default", "default", "map", "indirect", "throw", "debug", "custom", "deferred"]
     if focus == "C10":
